@@ -15,7 +15,7 @@ PW0=''
 PW1='a'
 PW2='0123456789abcdefghijABCDEFGHIJ!#%&()*+,-'
 PW3=$'\xc3\xa9'                 # U+00E9 (Latin-1 range)
-PW4=$'\xe5\xaf\x86\xe7\xa0\x81' # U+5BC6 U+7801 (CJK)
+PW4=$'\xe5\xaf\x86\xed\x95\x9c' # U+5BC6 U+D55C (CJK: Han, Hangul; second one has a high octet >= 0x80)
 PW5=$'\xf0\x9d\x84\x9e'         # U+1D11E (needs a UTF-16 surrogate pair)
 rm -f ossl-*.p12
 for k in rsa1024 rsa2048 p256; do
